@@ -496,6 +496,9 @@ func c05Mutate(r *Rec, m *c05Msg, field string) bool {
 	case "swap-members":
 		// two neighbouring members change places, address AND power: the remote contract is handed the arrays in the order
 		// listed and checks them against the checkpoint in that order, so the order of the members is a delivered value
+		if len(m.validators) < 2 || len(m.powers) != len(m.validators) {
+			return false // an earlier mutation of the same step changed the lists
+		}
 		i := r.Rng.Intn(len(m.validators) - 1)
 		if common.HexToAddress(m.validators[i]) == common.HexToAddress(m.validators[i+1]) && m.powers[i] == m.powers[i+1] {
 			return false
